@@ -32,13 +32,13 @@ ASSUMPTIONS = [
 NSHARDS = {"quick": 16, "thorough": 16}
 BUDGET_S = {"quick": 12, "thorough": 300}
 FLOORS = {
-    "quick": {"evaluations": 8000, "distinct": 1500,
-              "counters": {"identity_checks": 800, "literal_results": 1200, "text_results": 1200,
-                           "mode:sync.render": 2000, "mode:async.render_async": 2000,
-                           "mode:async.render": 1000, "const_expr_checks": 100}},
+    "quick": {"evaluations": 8000, "distinct": 2000,
+              "counters": {"identity_checks": 1800, "literal_results": 2000, "text_results": 2000,
+                           "mode:sync.render": 2500, "mode:async.render_async": 2500,
+                           "mode:async.render": 1200, "const_expr_checks": 100}},
     "thorough": {"evaluations": 150000, "distinct": 15000,
-                 "counters": {"identity_checks": 15000, "literal_results": 20000,
-                              "text_results": 20000, "mode:sync.render": 40000,
+                 "counters": {"identity_checks": 30000, "literal_results": 35000,
+                              "text_results": 35000, "mode:sync.render": 40000,
                               "mode:async.render_async": 40000, "mode:async.render": 20000,
                               "const_expr_checks": 100}},
 }
